@@ -109,8 +109,9 @@ type c10bWorld struct {
 	card *c10bCard
 	ls   *LanceroSource
 
-	blockEvery time.Duration // time between blocks while the hardware is sending
-	inProcess  int           // core loop is inside ProcessSegments (region monitor)
+	blockEvery  time.Duration // time between blocks while the hardware is sending
+	inProcess   int           // core loop is inside ProcessSegments (region monitor)
+	procWaiters []chan struct{}
 
 	active     bool // the harness knows the source to be running
 	staleFlag  bool // the source ended by itself and no Stop has been issued since
@@ -144,6 +145,10 @@ func c10bNewWorld(env *simrt.Env) *c10bWorld {
 		if ev.Region == "process" {
 			if ev.Enter {
 				w.inProcess++
+				for _, ch := range w.procWaiters {
+					close(ch)
+				}
+				w.procWaiters = nil
 			} else {
 				w.inProcess--
 			}
@@ -294,6 +299,52 @@ func (w *c10bWorld) rpcStop() error {
 	return err
 }
 
+// slowClient (faulted configuration): the calling client task is not scheduled for a while from
+// its next scheduling point on — inside the RPC method it is about to call (at most 1 s).
+func (w *c10bWorld) slowClient(who string) {
+	steps := 50 + simrt.DrawFault(2500)
+	if max := int(time.Second / w.delta); steps > max {
+		steps = max
+	}
+	w.env.Op("fault: the client task calling %s is held up for %d scheduler steps (about %v) at its next scheduling point", who, steps, time.Duration(steps)*w.delta)
+	simrt.Stall("harness:c10b-slow-client", steps)
+}
+
+// spawn starts a client task; the slow one gets a class of its own for the stall fault.
+func c10bSpawn(slow bool, fn func()) {
+	if slow {
+		simrt.GoHarness("c10b-slow-client", fn)
+		return
+	}
+	go fn()
+}
+
+// pollUntil looks at cond every so often, for at most d. (Harness code runs one task at a time,
+// so it may read the system's fields directly.)
+func (w *c10bWorld) pollUntil(d, every time.Duration, cond func() bool) bool {
+	deadline := time.Now().Add(d)
+	for !cond() {
+		if time.Now().After(deadline) {
+			return false
+		}
+		time.Sleep(every)
+	}
+	return true
+}
+
+// waitBlockStart returns when the core loop enters ProcessSegments (region monitor), or after d.
+func (w *c10bWorld) waitBlockStart(d time.Duration) bool {
+	ch := make(chan struct{})
+	w.procWaiters = append(w.procWaiters, ch)
+	got := false
+	select {
+	case <-ch:
+		got = true
+	case <-time.After(d):
+	}
+	return got
+}
+
 // pause lets a client task start late: a coarse delay on the clock, then a few scheduler steps.
 func c10bPause(coarse time.Duration, steps int) {
 	if coarse > 0 {
@@ -373,15 +424,26 @@ func (w *c10bWorld) stopK(what string, allowDirect bool) {
 	k := 1 + simrt.Draw(3)
 	done := make(chan int, k)
 	wasProcessing := false
+	slow := -1
+	if w.env.Faulted() && simrt.DrawFault(4) == 0 {
+		slow = simrt.DrawFault(k)
+	}
 	for i := 0; i < k; i++ {
 		i := i
 		direct := allowDirect && simrt.Draw(4) == 3
 		coarse := time.Duration(simrt.Draw(4)) * 7 * time.Millisecond
 		steps := simrt.Draw(25)
-		go func() {
+		onBlock := simrt.Draw(3) == 2
+		c10bSpawn(i == slow, func() {
 			c10bPause(coarse, steps)
+			if onBlock && !w.hw.silent {
+				w.waitBlockStart(2 * w.blockEvery) // arrive while the core loop is busy with a block
+			}
 			if w.inProcess > 0 {
 				wasProcessing = true
+			}
+			if i == slow {
+				w.slowClient("Stop")
 			}
 			if direct {
 				simrt.Within(20*time.Second, "C10.stop-returns", "lifecycle:stop-hangs", func() { w.ds.Stop() })
@@ -389,7 +451,7 @@ func (w *c10bWorld) stopK(what string, allowDirect bool) {
 				w.rpcStop()
 			}
 			done <- i
-		}()
+		})
 	}
 	for i := 0; i < k; i++ {
 		<-done
@@ -442,25 +504,36 @@ func (w *c10bWorld) stopDuringStart() {
 	}
 	nstop := 1 + simrt.Draw(2)
 	done := make(chan string, nstop+1)
+	slow := -1
+	if w.env.Faulted() && simrt.DrawFault(3) == 0 {
+		slow = simrt.DrawFault(nstop + 1)
+	}
 	d0 := time.Duration(simrt.Draw(3)) * 10 * time.Millisecond
-	go func() {
+	c10bSpawn(slow == nstop, func() {
 		c10bPause(d0, 0)
 		cerr := w.configure()
+		if slow == nstop {
+			w.slowClient("Start")
+		}
 		err := w.rpcStart()
 		done <- fmt.Sprintf("configure -> %v, Start -> %v", cerr, err)
-	}()
+	})
 	for i := 0; i < nstop; i++ {
+		i := i
 		coarse := time.Duration(simrt.Draw(16)) * 10 * time.Millisecond
 		steps := simrt.Draw(30)
-		go func() {
+		c10bSpawn(i == slow, func() {
 			c10bPause(coarse, steps)
 			st := w.ds.GetState()
 			if st == Starting {
 				simrt.Hit("stop-issued-during-start")
 			}
+			if i == slow {
+				w.slowClient("Stop")
+			}
 			err := w.rpcStop()
 			done <- fmt.Sprintf("Stop (issued in state %v) -> %v", st, err)
-		}()
+		})
 	}
 	for i := 0; i < nstop+1; i++ {
 		w.env.Op("stop-during-start: %s", <-done)
@@ -475,20 +548,43 @@ func (w *c10bWorld) stopDuringStart() {
 func (w *c10bWorld) startDuringStop() {
 	nstop := 1 + simrt.Draw(3)
 	done := make(chan string, nstop+1)
+	slow := -1
+	if w.env.Faulted() && simrt.DrawFault(3) == 0 {
+		slow = simrt.DrawFault(nstop + 1) // nstop: the starting client
+	}
 	for i := 0; i < nstop; i++ {
+		i := i
 		coarse := time.Duration(simrt.Draw(3)) * 7 * time.Millisecond
 		steps := simrt.Draw(25)
-		go func() {
+		c10bSpawn(i == slow, func() {
 			c10bPause(coarse, steps)
+			if i == slow {
+				w.slowClient("Stop")
+			}
 			err := w.rpcStop()
 			done <- fmt.Sprintf("Stop -> %v", err)
-		}()
+		})
 	}
 	coarse := time.Duration(simrt.Draw(5)) * 5 * time.Millisecond
 	steps := simrt.Draw(60)
 	insist := simrt.Draw(2) == 0
-	go func() {
-		c10bPause(coarse, steps)
+	syncOn := simrt.Draw(3) // 0: by the clock; 1: when the source is Stopping; 2: the moment it is Inactive
+	abort := w.any.abortSelf
+	c10bSpawn(slow == nstop, func() {
+		switch syncOn {
+		case 0:
+			c10bPause(coarse, steps)
+		case 1:
+			// woken by the very close(abortSelf) of the first Stop's state switch
+			select {
+			case <-abort:
+			case <-time.After(300 * time.Millisecond):
+			}
+		default:
+			// woken together with the first Stop caller when the core loop deactivates the source
+			w.any.runDone.Wait()
+			simrt.Hit("start-issued-the-moment-the-source-is-inactive")
+		}
 		st := w.ds.GetState()
 		if st == Stopping {
 			simrt.Hit("start-issued-during-stop")
@@ -498,12 +594,15 @@ func (w *c10bWorld) startDuringStop() {
 			done <- fmt.Sprintf("configure (issued in state %v) -> %v, no Start", st, cerr)
 			return
 		}
+		if slow == nstop {
+			w.slowClient("Start")
+		}
 		err := w.rpcStart()
 		if err == nil {
 			simrt.Hit("start-racing-stop-succeeded")
 		}
 		done <- fmt.Sprintf("configure (issued in state %v) -> %v, Start -> %v", st, cerr, err)
-	}()
+	})
 	for i := 0; i < nstop+1; i++ {
 		w.env.Op("start-during-stop: %s", <-done)
 	}
@@ -511,6 +610,105 @@ func (w *c10bWorld) startDuringStop() {
 	if w.active {
 		w.starts++
 	}
+}
+
+// concurrentStarts: two clients configure and start the inactive source at about the same time.
+func (w *c10bWorld) concurrentStarts() {
+	if w.staleFlag {
+		w.rpcStop()
+		w.staleFlag = false
+	}
+	done := make(chan string, 2)
+	firstDone := false
+	slow := -1
+	if w.env.Faulted() && simrt.DrawFault(3) == 0 {
+		slow = simrt.DrawFault(2)
+	}
+	for i := 0; i < 2; i++ {
+		i := i
+		coarse := time.Duration(simrt.Draw(12)) * 10 * time.Millisecond
+		steps := simrt.Draw(40)
+		late := i == 1 && simrt.Draw(2) == 1 // the second client arrives when the first Start is nearly through
+		c10bSpawn(i == slow, func() {
+			if late {
+				// (Active is set inside Start, before the source's StartRun and before the server notes success)
+				w.pollUntil(3*time.Second, time.Millisecond, func() bool { return firstDone || w.any.sourceState == Active })
+				c10bPause(0, steps/8)
+			} else {
+				c10bPause(coarse, steps)
+			}
+			st := w.ds.GetState()
+			if st == Starting {
+				simrt.Hit("start-issued-during-start")
+			}
+			cerr := w.configure()
+			if i == slow {
+				w.slowClient("Start")
+			}
+			err := w.rpcStart()
+			if i == 0 {
+				firstDone = true
+			}
+			done <- fmt.Sprintf("client %d: configure (issued in state %v) -> %v, Start -> %v", i, st, cerr, err)
+		})
+	}
+	nok := 0
+	for i := 0; i < 2; i++ {
+		r := <-done
+		if strings.HasSuffix(r, "Start -> <nil>") {
+			nok++
+		}
+		w.env.Op("concurrent-starts: %s", r)
+	}
+	if nok > 1 {
+		simrt.Fail("C10.start-only-when-inactive", "lifecycle:two-concurrent-starts-both-succeeded", "two concurrent Start calls on the same source both reported success")
+	}
+	w.settle("two concurrent Starts")
+	if nok == 1 && !w.active {
+		simrt.Fail("C10.active-after-start", "lifecycle:not-active-after-start", "two concurrent Starts: one Start reported success, no Stop was issued, but the source is %v", w.ds.GetState())
+	}
+	if w.active {
+		w.starts++
+	}
+}
+
+// startWhileStopping: while a Stop is waiting for the run to end (state Stopping) the source is
+// asked to start (DataSource level, as C10 does for a running source): "a data source can be
+// started only when inactive". The call may legitimately succeed if the run has ended by the
+// time it takes the state lock; otherwise it must be refused. Either way everything must
+// settle in a consistent state.
+func (w *c10bWorld) startWhileStopping() {
+	abort := w.any.abortSelf
+	done := make(chan string, 2)
+	go func() {
+		err := w.rpcStop()
+		done <- fmt.Sprintf("Stop -> %v", err)
+	}()
+	go func() {
+		select {
+		case <-abort:
+		case <-time.After(300 * time.Millisecond):
+		}
+		c10bPause(0, simrt.Draw(6))
+		st := w.any.sourceState
+		if st == Stopping {
+			simrt.Hit("start-while-stopping")
+		}
+		var err error
+		simrt.Within(20*time.Second, "C10.start-returns", "lifecycle:start-hangs", func() { err = Start(w.ds, w.sc.queuedRequests, 4, 16) })
+		done <- fmt.Sprintf("Start of the source itself (issued in state %v) -> %v", st, err)
+	}()
+	for i := 0; i < 2; i++ {
+		w.env.Op("start-while-stopping: %s", <-done)
+	}
+	time.Sleep(300 * time.Millisecond)
+	if w.ds.GetState() == Active {
+		// the run had ended before the Start took the state lock: a new run, started behind the server's back
+		simrt.Hit("start-while-stopping-found-it-inactive")
+		simrt.Within(20*time.Second, "C10.stop-returns", "lifecycle:stop-hangs", func() { w.ds.Stop() })
+	}
+	w.sc.handlePossibleStoppedSource()
+	w.checkStopped("Start while Stopping")
 }
 
 // startWhileActive: Start on a running source is refused and changes nothing.
@@ -671,8 +869,18 @@ func c10bBody(env *simrt.Env) {
 			switch op := simrt.Draw(8); {
 			case op < 2:
 				w.stopDuringStart()
-			case op < 4 && env.Faulted() && w.failed < 2:
+			case op < 3:
+				w.concurrentStarts()
+			case op < 5 && env.Faulted() && w.failed < 2:
 				w.failedStart()
+			case op < 6 && i > 0:
+				// Stop on an inactive source returns (with an error) and changes nothing
+				err := w.rpcStop()
+				env.Op("Stop on the inactive source -> %v", err)
+				if st := w.ds.GetState(); st != Inactive {
+					simrt.Fail("C10.inactive-after-stop", "lifecycle:stop-on-inactive-changed-state", "Stop on an inactive source left it in state %v", st)
+				}
+				simrt.Hit("stop-while-inactive")
 			default:
 				w.startOK("Start")
 			}
@@ -686,9 +894,11 @@ func c10bBody(env *simrt.Env) {
 		case op < 6:
 			time.Sleep(time.Duration(simrt.Draw(4)) * w.blockEvery / 2)
 			w.stopK("Stop", true)
-		case op < 9:
+		case op < 8:
 			time.Sleep(time.Duration(simrt.Draw(4)) * w.blockEvery / 2)
 			w.startDuringStop()
+		case op < 9:
+			w.startWhileStopping()
 		default:
 			if env.Faulted() {
 				w.silence()
